@@ -297,6 +297,8 @@ impl Texts {
 thread_local! {
     /// fault injection: the loader fails for this crate
     static FAIL_CRATE: RefCell<Option<String>> = const { RefCell::new(None) };
+    /// description edits: (crate, item key, new value of the item's `inner`)
+    static EDITS: RefCell<Vec<(String, String, Value)>> = const { RefCell::new(Vec::new()) };
 }
 
 fn run_codegen(texts: &Texts, example: &str, perms: &HashMap<String, Perm>) -> Result<(Value, Vec<String>, HashMap<String, Crate>), String> {
@@ -311,6 +313,13 @@ fn run_codegen(texts: &Texts, example: &str, perms: &HashMap<String, Perm>) -> R
             anyhow::bail!("crate `{name}` is not among the bundled descriptions");
         };
         let mut v = v.clone();
+        EDITS.with(|e| {
+            for (c, item, inner) in e.borrow().iter() {
+                if c == name {
+                    v["index"][item.as_str()]["inner"] = inner.clone();
+                }
+            }
+        });
         renumber(&mut v, perms.get(name).unwrap_or(&Perm::identity()), true);
         // a fresh deserialisation: new HashMap seeds, hence new iteration orders
         let c: Crate = serde_json::from_value(v)?;
@@ -403,6 +412,262 @@ fn traced_protocol_registry() -> Result<Value, String> {
     };
     let reg = tracer.registry().map_err(|e| e.to_string())?;
     serde_json::to_value(&reg).map_err(|e| e.to_string())
+}
+
+/// what the generator must say for a primitive type (64-bit target), written down independently
+fn primitive_format(p: &str) -> Option<&'static str> {
+    Some(match p {
+        "bool" => "BOOL",
+        "char" => "CHAR",
+        "i8" => "I8",
+        "i16" => "I16",
+        "i32" => "I32",
+        "i64" | "isize" => "I64",
+        "i128" => "I128",
+        "u8" => "U8",
+        "u16" => "U16",
+        "u32" => "U32",
+        "u64" | "usize" => "U64",
+        "u128" => "U128",
+        _ => return None,
+    })
+}
+
+/// the places where two registries differ: (path, old, new), descending only where both sides
+/// are containers of the same shape
+fn registry_diff(a: &Value, b: &Value, path: &mut Vec<String>, out: &mut Vec<(String, Value, Value)>) {
+    match (a, b) {
+        (Value::Object(x), Value::Object(y)) if x.keys().eq(y.keys()) => {
+            for (k, xv) in x {
+                path.push(k.clone());
+                registry_diff(xv, &y[k], path, out);
+                path.pop();
+            }
+        }
+        (Value::Array(x), Value::Array(y)) if x.len() == y.len() => {
+            for (i, (xv, yv)) in x.iter().zip(y).enumerate() {
+                path.push(i.to_string());
+                registry_diff(xv, yv, path, out);
+                path.pop();
+            }
+        }
+        _ => {
+            if a != b {
+                out.push((path.join("/"), a.clone(), b.clone()));
+            }
+        }
+    }
+}
+
+/// entry by entry: differences inside the entries both registries have, and the names of the
+/// entries only one of them has (a type nobody refers to any more leaves the registry)
+fn entries_diff(a: &Value, b: &Value) -> (Vec<(String, Value, Value)>, Vec<String>, Vec<String>) {
+    let (x, y) = (a.as_object().cloned().unwrap_or_default(), b.as_object().cloned().unwrap_or_default());
+    let mut diffs = vec![];
+    for (k, xv) in &x {
+        if let Some(yv) = y.get(k) {
+            registry_diff(xv, yv, &mut vec![k.clone()], &mut diffs);
+        }
+    }
+    let removed = x.keys().filter(|k| !y.contains_key(*k)).cloned().collect();
+    let added = y.keys().filter(|k| !x.contains_key(*k)).cloned().collect();
+    (diffs, removed, added)
+}
+
+fn find_path_id(v: &Value, path_name: &str) -> Option<u64> {
+    match v {
+        Value::Object(m) => {
+            if let Some(rp) = m.get("resolved_path") {
+                if rp["path"].as_str() == Some(path_name) {
+                    if let Some(id) = rp["id"].as_u64() {
+                        return Some(id);
+                    }
+                }
+            }
+            m.values().find_map(|x| find_path_id(x, path_name))
+        }
+        Value::Array(xs) => xs.iter().find_map(|x| find_path_id(x, path_name)),
+        _ => None,
+    }
+}
+
+fn generic(path: &str, id: u64, arg: Value) -> Value {
+    json!({"resolved_path": {"path": path, "id": id, "args": {"angle_bracketed": {"args": [{"type": arg}], "constraints": []}}}})
+}
+
+/// (f) edits of a description with a known effect on the registry. A field's primitive type is
+/// replaced (every supported primitive, `isize` included), a field's type is wrapped in `Option` /
+/// `Vec` (also twice: `Option<Option<T>>`), a one-field variant loses its field (`V()`, `V {}`).
+/// A control edit first shows where in the registry the field is visible at all.
+fn description_edits(texts: &Texts, example: &str, closure: &[String], base_reg: &Value, budget: u64, worker: u64, workers: u64, seed: u64, ei: u64, report: &Arc<Mutex<Report>>, wd: &Watchdog) {
+    let run = |edits: Vec<(String, String, Value)>| -> Result<Value, String> {
+        EDITS.with(|e| *e.borrow_mut() = edits);
+        let r = vcommon::trap(|| run_codegen(texts, example, &HashMap::new()));
+        EDITS.with(|e| e.borrow_mut().clear());
+        match r {
+            Ok(Ok((reg, _, _))) => Ok(reg),
+            Ok(Err(e)) => Err(format!("failed: {e}")),
+            Err(p) => Err(format!("panicked: {p}")),
+        }
+    };
+    // candidates: (crate, item key, kind)
+    let mut fields: Vec<(String, String, Value)> = vec![];
+    let mut variants: Vec<(String, String, Value)> = vec![];
+    for c in closure {
+        let Some(v) = texts.raw.get(c) else { continue };
+        let Some(index) = v["index"].as_object() else { continue };
+        let mut keys: Vec<&String> = index.keys().collect();
+        keys.sort();
+        for k in keys {
+            let inner = &index[k]["inner"];
+            if let Some(t) = inner.get("struct_field") {
+                fields.push((c.clone(), k.clone(), t.clone()));
+            } else if let Some(var) = inner.get("variant") {
+                if var["kind"].get("tuple").and_then(|t| t.as_array()).map(|t| t.len() == 1 && !t[0].is_null()).unwrap_or(false) {
+                    variants.push((c.clone(), k.clone(), inner.clone()));
+                }
+            }
+        }
+    }
+    const PRIMS: [&str; 14] = ["bool", "char", "i8", "i16", "i32", "i64", "i128", "isize", "u8", "u16", "u32", "u64", "u128", "usize"];
+    for t in (0..budget).filter(|t| t % workers == worker) {
+        let mut rng = Rng::derive(seed ^ 0xed17, ei, t);
+        let kind = t % 4;
+        if kind == 3 {
+            // ---- a variant that keeps its place but has nothing left to serialise ----
+            if variants.is_empty() {
+                continue;
+            }
+            let (c, k, inner) = rng.pick(&variants).clone();
+            let mut edited = inner.clone();
+            let struct_like = rng.chance(1, 2);
+            edited["variant"]["kind"] = if struct_like { json!({"struct": {"fields": [], "has_stripped_fields": false}}) } else { json!({"tuple": []}) };
+            wd.begin(|| json!({"lane": "clilab", "example": example, "edit": "empty-variant", "crate": c, "item": k}).to_string());
+            let res = run(vec![(c.clone(), k.clone(), edited)]);
+            wd.end();
+            let mut r = report.lock().unwrap();
+            r.eval();
+            r.count("description_edits.variant_emptied", 1);
+            match res {
+                Ok(reg) => {
+                    let mut holes = vec![];
+                    for (name, entry) in reg.as_object().cloned().unwrap_or_default() {
+                        if let Some(vars) = registry_variants(&entry) {
+                            let idxs: Vec<u32> = vars.iter().map(|(i, _)| *i).collect();
+                            if idxs != (0..vars.len() as u32).collect::<Vec<_>>() {
+                                holes.push((name, idxs));
+                            }
+                        }
+                    }
+                    let (diffs, _removed, added) = entries_diff(base_reg, &reg);
+                    if !holes.is_empty() {
+                        r.violation(
+                            &format!("registry/variant-indices-not-contiguous-after-edit/{}", if struct_like { "V{}" } else { "V()" }),
+                            &format!("{example}: after a one-field variant was turned into {} the variant indices are {holes:?}", if struct_like { "V {}" } else { "V()" }),
+                            json!({"lane": "clilab", "example": example, "crate": c, "item": k}),
+                        );
+                    } else if diffs.iter().any(|(_, _, new)| !(new == "UNIT" || *new == json!({"STRUCT": []}) || *new == json!({"TUPLE": []}))) || !added.is_empty() {
+                        // (serde writes `V`, `V()` and `V {}` alike - the variant index and nothing else)
+                        r.violation(
+                            "registry/emptied-variant-not-unit",
+                            &format!("{example}: a variant without fields is not described as a unit variant: {:?}", diffs.iter().take(3).collect::<Vec<_>>()),
+                            json!({"lane": "clilab", "example": example, "crate": c, "item": k}),
+                        );
+                    } else {
+                        if !diffs.is_empty() {
+                            r.count("description_edits.visible", 1);
+                        }
+                        r.nontrivial(hash_mix(hash_mix(fnv64(example.as_bytes()), fnv64(k.as_bytes())), 3));
+                    }
+                }
+                Err(e) => r.violation("codegen-failed-after-edit/empty-variant", &format!("{example}: codegen {e}"), json!({"lane": "clilab", "example": example, "crate": c, "item": k})),
+            }
+            continue;
+        }
+        // ---- field edits ----
+        let prim_fields: Vec<&(String, String, Value)> = fields.iter().filter(|f| f.2.get("primitive").and_then(|p| p.as_str()).and_then(primitive_format).is_some()).collect();
+        let (c, k, ty) = if kind == 0 && !prim_fields.is_empty() { (*rng.pick(&prim_fields)).clone() } else if !fields.is_empty() { rng.pick(&fields).clone() } else { continue };
+        let old_prim = ty.get("primitive").and_then(|p| p.as_str()).map(|s| s.to_string());
+        // control: is the field visible in the registry, and where?
+        let control_prim = if old_prim.as_deref() == Some("bool") { "char" } else { "bool" };
+        wd.begin(|| json!({"lane": "clilab", "example": example, "edit": "field", "crate": c, "item": k}).to_string());
+        let control = run(vec![(c.clone(), k.clone(), json!({"struct_field": {"primitive": control_prim}}))]);
+        let mut r = report.lock().unwrap();
+        r.eval();
+        r.count("description_edits.control_runs", 1);
+        let control_paths: BTreeSet<String> = match &control {
+            Ok(reg) => entries_diff(base_reg, reg).0.into_iter().map(|x| x.0).collect(),
+            Err(_) => BTreeSet::new(),
+        };
+        drop(r);
+        if control_paths.is_empty() {
+            wd.end();
+            report.lock().unwrap().count("description_edits.field_not_visible_in_registry", 1);
+            continue;
+        }
+        if control_paths.iter().any(|p| p.starts_with("Effect/")) {
+            // the payload of an `Effect` variant is the macro-generated request wrapper, which the
+            // generator treats specially (operation and output types are looked up through it): an
+            // edited payload is not a description any crux app can have
+            wd.end();
+            report.lock().unwrap().count("description_edits.effect_payloads_left_alone", 1);
+            continue;
+        }
+        // the edit proper, with its predicted effect
+        let (new_ty, what, predict): (Value, String, Box<dyn Fn(&Value) -> Value>) = if kind == 0 && old_prim.is_some() {
+            let old = old_prim.clone().unwrap();
+            let cands: Vec<&&str> = PRIMS.iter().filter(|p| primitive_format(p) != primitive_format(&old)).collect();
+            let to = **rng.pick(&cands);
+            let f = primitive_format(to).unwrap();
+            (json!({"primitive": to}), format!("{old} -> {to}"), Box::new(move |_old: &Value| json!(f)))
+        } else {
+            let raw = &texts.raw[&c];
+            let (opt, vec) = (find_path_id(raw, "Option"), find_path_id(raw, "Vec"));
+            let shape = rng.below(5);
+            match (shape, opt, vec) {
+                (0, Some(o), _) => (generic("Option", o, ty.clone()), "T -> Option<T>".into(), Box::new(|old: &Value| json!({"OPTION": old}))),
+                (1, Some(o), _) => (generic("Option", o, generic("Option", o, ty.clone())), "T -> Option<Option<T>>".into(), Box::new(|old: &Value| json!({"OPTION": {"OPTION": old}}))),
+                (2, _, Some(v)) => (generic("Vec", v, ty.clone()), "T -> Vec<T>".into(), Box::new(|old: &Value| json!({"SEQ": old}))),
+                (3, Some(o), Some(v)) => (generic("Vec", v, generic("Option", o, ty.clone())), "T -> Vec<Option<T>>".into(), Box::new(|old: &Value| json!({"SEQ": {"OPTION": old}}))),
+                (_, Some(o), Some(v)) => (generic("Option", o, generic("Vec", v, ty.clone())), "T -> Option<Vec<T>>".into(), Box::new(|old: &Value| json!({"OPTION": {"SEQ": old}}))),
+                _ => {
+                    wd.end();
+                    continue;
+                }
+            }
+        };
+        let res = run(vec![(c.clone(), k.clone(), json!({"struct_field": new_ty}))]);
+        wd.end();
+        let mut r = report.lock().unwrap();
+        r.eval();
+        r.count("description_edits.field_edits", 1);
+        r.set("description_edit_kinds", if kind == 0 && old_prim.is_some() { format!("primitive {what}") } else { what.clone() });
+        match res {
+            Ok(reg) => {
+                let (diffs, removed, added) = entries_diff(base_reg, &reg);
+                let paths: BTreeSet<String> = diffs.iter().map(|d| d.0.clone()).collect();
+                let wrong: Vec<&(String, Value, Value)> = diffs.iter().filter(|(_, old, new)| *new != predict(old)).collect();
+                // (types nobody refers to any more may leave the registry - the protocol types behind an
+                // `Effect` variant whose payload is no longer a plain operation, say - but what is left
+                // must be closed)
+                let _ = removed;
+                let mut refs = BTreeSet::new();
+                type_names(&reg, &mut refs);
+                let dangling: Vec<&String> = refs.iter().filter(|t| reg.get(t.as_str()).is_none() && !(LIBS.contains(&example) && *t == "Effect")).collect();
+                if paths != control_paths || !wrong.is_empty() || !added.is_empty() || !dangling.is_empty() {
+                    r.violation(
+                        &format!("registry/field-edit-has-unexpected-effect/{}", if kind == 0 && old_prim.is_some() { "primitive".to_string() } else { what.replace(' ', "") }),
+                        &format!("{example}: the type of a field was edited ({what}); the registry changed at {:?} (the field shows at {:?}); not as predicted: {:?}; entries added {added:?}; referenced but not defined {dangling:?}", paths.iter().take(4).collect::<Vec<_>>(), control_paths.iter().take(4).collect::<Vec<_>>(), wrong.iter().take(3).collect::<Vec<_>>()),
+                        json!({"lane": "clilab", "example": example, "crate": c, "item": k, "edit": what}),
+                    );
+                } else {
+                    r.count("description_edits.visible", 1);
+                    r.nontrivial(hash_mix(hash_mix(fnv64(example.as_bytes()), fnv64(k.as_bytes())), fnv64(what.as_bytes())));
+                }
+            }
+            Err(e) => r.violation(&format!("codegen-failed-after-edit/{}", what.replace(' ', "")), &format!("{example}: after the edit {what} codegen {e}"), json!({"lane": "clilab", "example": example, "crate": c, "item": k, "edit": what})),
+        }
+    }
 }
 
 fn main() {
@@ -655,6 +920,8 @@ fn main() {
                 Err(p) => r.violation(&format!("panic/{}", vcommon::panic_site(&p)), &format!("codegen panicked when `{dep}` could not be loaded: {p}"), json!({"lane": "clilab", "example": example, "unavailable_crate": dep})),
             }
         }
+        // (f) description edits with a predicted effect
+        description_edits(&texts, example, &base_order, &base_reg, args.extra_u64("edits", if args.thorough() { 400 } else { 12 }), args.worker, args.workers, seed, ei as u64, &report, &wd);
         let mut r = report.lock().unwrap();
         r.count("distinct_index_iteration_orders_seen", index_orders.len() as u64);
         r.sample(|| json!({"example": example, "registry_entries": entries.len(), "load_order": base_order}));
